@@ -233,6 +233,50 @@ def swiss(mode):
     return [list(map(float, p)) for p in pts], [list(f) for f in keep]
 
 
+# ------------------------------------------------------------------------------------------ placements
+# Where the surface sits and in which unit its lengths are given: p -> 2^j p + T_k with T_k = (2^k, -2^k, 2^(k-1)), or
+# T = 0 (unit of length only). Everything the statement speaks of (border loops, angles between normals, angle sums at
+# the vertices) is invariant under such a map. The coordinates are first rounded to multiples of 2^-m so that the map is
+# EXACT in binary floating point (checked by an exact predicate, an inexact specimen is dropped and counted): the
+# placed specimen is then congruent (similar) to the specimen at the origin bit for bit, every difference of two
+# coordinates is exact, and a formula built on edge vectors loses nothing whereas one built on absolute positions loses
+# log2((distance / size)^2) bits.
+def quantize(pts, m):
+    """every coordinate rounded to the nearest multiple of 2^-m (exact operations only)."""
+    s = 2.0 ** m
+    return [[round(float(x) * s) / s for x in p] for p in pts]
+
+
+def far_vector(k, axis=None):
+    if k is None:
+        return (0, 0, 0)
+    if axis is not None:
+        return tuple((-(2 ** k) if i == axis else 0) for i in range(3))
+    return (2 ** k, -(2 ** k), 2 ** (k - 1))
+
+
+def place(pts, j, k, axis=None):
+    """the points under p -> 2^j p + T_k as floats, or None if one coordinate is not exactly representable."""
+    T, s = far_vector(k, axis), Fr(2) ** j
+    out = []
+    for p in pts:
+        row = []
+        for x, t in zip(p, T):
+            q = Fr(x) * s + t
+            f = float(q)
+            if Fr(f) != q:
+                return None
+            row.append(f)
+        out.append(row)
+    return out
+
+
+def place_label(j, k, axis=None):
+    if k is None:
+        return "unit_of_length"
+    return "far_from_origin"
+
+
 def chords_of(faces):
     """Interior edges joining two border vertices."""
     bh = F.border_half_edges(faces)
